@@ -1,16 +1,14 @@
 --------------------------- MODULE QuerySemTables ---------------------------
 (* C01, binding E1: exports, for every query of the bounded space (or for the well-typed trees handed in
-   as JSON by the thorough tier) and every data set, the result RefEval prescribes.  `alt` holds the result
-   under the other admissible reading of a missing collection element when it differs (see QuerySem). *)
+   as JSON by the thorough tier) and every data set, the result RefEval prescribes (field r; field a is kept
+   empty: there is a single reading). *)
 EXTENDS QuerySem, Json, IOUtils
 
 In == JsonDeserialize(IOEnv.IN)
 
 ND == Len(DataSets)
-CaseD(q, D, both) == LET r == RefEval(q, D) IN
-                     IF ~both THEN [r |-> r, a |-> <<>>]
-                     ELSE LET a == RefEvalAlt(q, D) IN [r |-> r, a |-> IF SameResult(r, a) THEN <<>> ELSE <<a>>]
-Case(q) == LET both == HasMember(q.cond) IN [q |-> q, out |-> [k \in 1 .. ND |-> CaseD(q, DataSets[k], both)]]
+CaseD(q, D) == [r |-> RefEval(q, D), a |-> <<>>]
+Case(q) == [q |-> q, out |-> [k \in 1 .. ND |-> CaseD(q, DataSets[k])]]
 
 Given(q) == IF WellTyped(q) THEN Case(q) ELSE [q |-> q, out |-> <<>>]
 
